@@ -141,3 +141,64 @@ func sortedPoints(m map[string]int) []string {
 	sort.Strings(ks)
 	return ks
 }
+
+// Rendezvous couples background work to the writer: a background goroutine reaching one of the
+// chosen hook points waits there until the writer has completed one more call (Signal), or for
+// at most Cap.  It makes "a batch is introduced inside this window" the common case.
+type Rendezvous struct {
+	Points map[string]bool
+	Cap    time.Duration
+	ch     chan struct{}
+	mu     sync.Mutex
+	Waits  int
+	Met    int
+}
+
+// Points that open a window between a background task's view of the root and the moment its
+// result is introduced or recorded.
+var RendezvousPoints = []string{"persist.begin", "persist.afterSegmentFiles", "persist.memMerge.afterFiles", "persist.beforeIntroduce",
+	"persist.afterIntroduce", "persist.afterBoltCommit", "merge.afterFileWritten", "merge.beforeIntroduce"}
+
+func NewRendezvous(points []string, cap time.Duration) *Rendezvous {
+	r := &Rendezvous{Points: map[string]bool{}, Cap: cap, ch: make(chan struct{}, 1)}
+	for _, p := range points {
+		r.Points[p] = true
+	}
+	return r
+}
+
+func (r *Rendezvous) OnPoint(p string) {
+	if !r.Points[p] {
+		return
+	}
+	select { // forget a signal sent before the window opened
+	case <-r.ch:
+	default:
+	}
+	met := false
+	select {
+	case <-r.ch:
+		met = true
+	case <-time.After(r.Cap):
+	}
+	r.mu.Lock()
+	r.Waits++
+	if met {
+		r.Met++
+	}
+	r.mu.Unlock()
+}
+
+// Signal is called by the writer after each completed call.
+func (r *Rendezvous) Signal() {
+	select {
+	case r.ch <- struct{}{}:
+	default:
+	}
+}
+
+func (r *Rendezvous) Stats() (waits, met int) {
+	r.mu.Lock()
+	defer r.mu.Unlock()
+	return r.Waits, r.Met
+}
